@@ -33,7 +33,7 @@ func Profile(prop string) GenOpts {
 	case "C03":
 		o.PFail, o.PIgnCmd, o.PIgnTask, o.PCall = 0.4, 0.35, 0.25, 0.3
 	case "C06":
-		o.POnce, o.PWhenChanged, o.PPassV, o.PCall, o.PEnvUse = 0.35, 0.3, 0.6, 0.35, 0.3
+		o.POnce, o.PWhenChanged, o.PPassV, o.PCall, o.PEnvUse, o.PPair = 0.35, 0.3, 0.6, 0.35, 0.3, 0.4
 	case "C07":
 		o.MaxDeps, o.Ns, o.POnce, o.PCall = 3, []int{1, 1, 2, 2, 3, 0}, 0.25, 0.3
 	case "C13":
@@ -288,7 +288,7 @@ func CheckExec(prop, tier string) int {
 			bundle := replayBundle{Property: prop, Sig: v.Sig, Program: progs[k.prog], Taskfile: progs[k.prog].Taskfile(),
 				Release: r.Released, Gates: items[k.prog].Gates, Trace: r.Trace, Pretty: TraceString(r.Trace)}
 			// confirm by re-execution with the same release order
-			rr := Run(Job{Prog: progs[k.prog], Script: r.Released, Gates: items[k.prog].Gates}, "/dev/shm")
+			rr := Run(Job{Prog: progs[k.prog], Script: r.Released, Gates: items[k.prog].Gates, Snapshot: true}, "/dev/shm")
 			pv2, err2 := ValidateProps([]*Program{progs[k.prog]}, []TraceItem{{ID: "re", Prog: 1, Evs: rr.Trace}})
 			if err2 == nil {
 				for _, v2 := range pv2.ByTrace["re"] {
@@ -304,7 +304,7 @@ func CheckExec(prop, tier string) int {
 			if !bundle.Confirmed {
 				// scheduling inside the executor that the harness cannot fix may differ; try a few more times
 				for n := 0; n < 5 && !bundle.Confirmed; n++ {
-					rr = Run(Job{Prog: progs[k.prog], Script: r.Released, Gates: items[k.prog].Gates}, "/dev/shm")
+					rr = Run(Job{Prog: progs[k.prog], Script: r.Released, Gates: items[k.prog].Gates, Snapshot: true}, "/dev/shm")
 					if pv3, e3 := ValidateProps([]*Program{progs[k.prog]}, []TraceItem{{ID: "re", Prog: 1, Evs: rr.Trace}}); e3 == nil {
 						for _, v3 := range pv3.ByTrace["re"] {
 							if v3.Prop == prop && v3.Sig == v.Sig {
@@ -425,7 +425,7 @@ func ReplayExec(path string) int {
 		return 2
 	}
 	for n := 0; n < 6; n++ {
-		rr := Run(Job{Prog: rb.Program, Script: rb.Release, Gates: rb.Gates}, "/dev/shm")
+		rr := Run(Job{Prog: rb.Program, Script: rb.Release, Gates: rb.Gates, Snapshot: true}, "/dev/shm")
 		pv, err := ValidateProps([]*Program{rb.Program}, []TraceItem{{ID: "re", Prog: 1, Evs: rr.Trace}})
 		if err != nil {
 			fmt.Println("ERROR:", err)
